@@ -23,6 +23,7 @@ type c14Ev struct {
 	id     string
 	tuple  string   // "" for non-state events
 	auth   []*c14Ev // auth events (originals)
+	before []*c14Ev // the room state before the event, in history order
 }
 
 type c14Room struct {
@@ -130,6 +131,11 @@ func (r *c14Room) add(name, typ string, sk *string, sender string, content inter
 		f["event_id"] = fmt.Sprintf("$%s%s%d:%s", r.tag, name, r.n, c14ServerOf(sender))
 	}
 	e := &c14Ev{name: name, fields: f, server: c14ServerOf(sender), auth: auth}
+	for _, x := range r.evs {
+		if x.tuple != "" && r.cur[x.tuple] == x {
+			e.before = append(e.before, x)
+		}
+	}
 	e.text = c14Sign(r.ver, f, e.server, false)
 	e.id = c14IDOf(r.ver, e.text)
 	if e.id == "" {
@@ -155,6 +161,7 @@ type c14History struct {
 	joinOld  *c14Ev // join event whose auth events are the FIRST join rules / power levels
 	byID     map[string]*c14Ev
 	altOther *c14Ev // a state event of another room (same users)
+	altPL    *c14Ev // a genuine, strict power-levels event of the room that is not part of its state
 }
 
 // c14NewHistory builds create, members, power levels, join rules, topic/name events by 2-4 users.
@@ -266,6 +273,12 @@ func c14NewHistory(rng *rand.Rand, ver string, tag string) *c14History {
 	r.cur = cur2
 	h.joinOld = r.add("joinold", "m.room.member", c14Str(joiner), joiner, map[string]string{"membership": "join"})
 	r.evs, r.cur = r.evs[:snapshot], curSave
+	// a strict power-levels event (everybody but the creator is muted), never part of the state
+	h.altPL = r.add("altpl", "m.room.power_levels", c14Str(""), users[0], map[string]interface{}{
+		"users": map[string]int{users[0]: 100}, "users_default": 0, "events_default": 50,
+		"state_default": 50, "ban": 50, "kick": 50, "redact": 50, "invite": 50,
+	})
+	r.evs, r.cur = r.evs[:snapshot], curSave
 	// an event of another room
 	other := &c14Room{ver: r.ver, v1: r.v1, roomID: "!other" + tag + ":h0", cur: map[string]*c14Ev{}, tag: tag + "o"}
 	h.altOther = other.add("create", "m.room.create", c14Str(""), users[0], cc)
@@ -287,7 +300,8 @@ func (h *c14History) rebuild(e *c14Ev, wrongKey bool, mod func(f c14Fields)) str
 }
 
 var c14FaultKinds = []string{"badsig", "disallowed", "missing", "wrongroom", "nonstate", "dupkey",
-	"malformed", "oversize_p", "oversize_np", "dupvariant", "malformed2", "longtype_p"}
+	"malformed", "oversize_p", "oversize_np", "dupvariant", "malformed2", "longtype_p",
+	"dupauth_last", "dupauth_first", "nopl", "otherroom"}
 
 func (h *c14History) variant(e *c14Ev, kind string) string {
 	switch kind {
@@ -322,6 +336,21 @@ func (h *c14History) variant(e *c14Ev, kind string) string {
 		})
 	case "badsig_wrongroom":
 		return h.rebuild(e, true, func(f c14Fields) { f["room_id"] = "!elsewhere:h0" })
+	case "nopl", "dupauth_last", "dupauth_first": // what the event cites as its auth events
+		var cited []*c14Ev
+		for _, a := range e.auth {
+			if kind != "nopl" || !strings.HasPrefix(a.tuple, "m.room.power_levels\x00") {
+				cited = append(cited, a)
+			}
+		}
+		if kind == "dupauth_last" {
+			cited = append(cited, h.altPL)
+		} else if kind == "dupauth_first" {
+			cited = append([]*c14Ev{h.altPL}, cited...)
+		}
+		return h.rebuild(e, false, func(f c14Fields) { f["auth_events"] = h.room.refs(cited) })
+	case "otherroom": // a genuine event of another room takes the place
+		return h.altOther.text
 	case "malformed":
 		return e.text[:len(e.text)-1]
 	case "malformed2":
@@ -374,7 +403,7 @@ func (b *c14Builder) args() [][]byte {
 	return [][]byte{buf.Bytes(), nil}
 }
 
-var c14ProvModes = []string{"orig", "nothing", "error", "diff_once", "err_then_orig", "nonstate", "bad", "diff_then_nothing", "none"}
+var c14ProvModes = []string{"orig", "nothing", "error", "diff_once", "err_then_orig", "nonstate", "bad", "diff_then_nothing", "none", "diff_forever", "orig_plus_extra", "diff_forever_all"}
 
 // script installs the behaviour `mode` of the event provider for event ID id (orig = the
 // original event of the history with that ID, may be nil).
@@ -408,6 +437,10 @@ func (b *c14Builder) script(h *c14History, id string, orig *c14Ev, mode string) 
 		}
 	case "diff_then_nothing":
 		as = [][]int{other, {}}
+	case "diff_forever", "diff_forever_all": // every request is answered with another event (finding F82)
+		as = [][]int{other}
+	case "orig_plus_extra":
+		as = [][]int{append(append([]int{}, o...), other...)}
 	case "err_then_orig":
 		as = [][]int{{-1}}
 		if o != nil {
@@ -425,21 +458,6 @@ func (b *c14Builder) script(h *c14History, id string, orig *c14Ev, mode string) 
 		}
 	}
 	if as != nil {
-		// The last answer is repeated for ever. If it consisted only of events with another
-		// ID, checkAllowedByAuthEvents would ask again and again (liveness note of the model:
-		// such a provider makes the Go loop spin), so such a script ends with "nothing".
-		last := as[len(as)-1]
-		if len(last) > 0 && last[0] != -1 {
-			has := false
-			for _, u := range last {
-				if c14IDOf(gmsl.RoomVersion(b.spec.Ver), b.spec.Texts[u]) == id {
-					has = true
-				}
-			}
-			if !has {
-				as = append(as, []int{})
-			}
-		}
 		b.spec.Prov = append(b.spec.Prov, c14Script{ID: id, Answers: as})
 	}
 }
@@ -520,7 +538,7 @@ func (h *c14History) positions() []c14Fault {
 // stateCase builds one csr / sj scenario.
 func (h *c14History) stateCase(op string, faults []c14Fault, mode string, join *c14Ev, joinKind string) *c14Builder {
 	b := newC14Builder(op, string(h.room.ver))
-	a, s, _ := h.response(faults)
+	a, s, removed := h.response(faults)
 	b.spec.A, b.spec.S = b.ts(a), b.ts(s)
 	if op == "sj" {
 		jt := join.text
@@ -532,10 +550,24 @@ func (h *c14History) stateCase(op string, faults []c14Fault, mode string, join *
 	if mode == "none" {
 		b.spec.HasProv = false
 	}
-	for _, e := range h.room.evs {
-		b.script(h, e.id, e, mode)
+	isRemoved := func(e *c14Ev) bool {
+		for _, x := range removed {
+			if x == e {
+				return true
+			}
+		}
+		return false
 	}
-	if mode != "orig" && mode != "none" && mode != "nothing" {
+	for _, e := range append(append([]*c14Ev{}, h.room.evs...), h.altPL) {
+		m := mode
+		// the answers with unrequested events concern the events that are missing from the
+		// response; the others are answered honestly (the provider stays a function of the ID)
+		if (mode == "diff_forever" || mode == "orig_plus_extra") && !isRemoved(e) {
+			m = "orig"
+		}
+		b.script(h, e.id, e, m)
+	}
+	if mode != "orig" && mode != "none" && mode != "nothing" && mode != "orig_plus_extra" {
 		b.script(h, "$unknown:h0", nil, mode)
 	}
 	return b
@@ -573,6 +605,7 @@ func init() {
 		b.spec.R = b.ts([]string{h.room.evs[0].text, h.room.evs[1].text})
 		g.run(b, "load unknown version")
 		b = newC14Builder("bf", "no-such-version")
+		b.spec.Room = "!x:h0"
 		b.spec.From, b.spec.Limit, b.spec.Servers = []string{"$x"}, 5, []string{"s1", "s2"}
 		b.spec.BF = []c14BF{{Server: "s1", PDUs: b.ts([]string{h.room.evs[0].text})}, {Server: "s2", Err: true}}
 		g.run(b, "bf unknown version")
@@ -586,17 +619,59 @@ type c14Gen struct {
 
 // stationary: every script is a single answer (nothing, an error, or one event carrying the
 // requested ID) -- the provider is then a function of the requested ID and the specification
-// oracle applies
-func (b *c14Builder) stationary() bool {
+// oracle applies. lenient (CheckStateResponse / CheckSendJoinResponse): the answer may carry
+// unrequested events as well, provided each of them is also the script's answer for its own ID
+// and no other text of the pool has that ID (mirrors Fed/Oracle.v: script_fun_extras).
+func (b *c14Builder) stationary(lenient bool) bool {
+	ver := gmsl.RoomVersion(b.spec.Ver)
+	idOf := func(u int) string { return c14IDOf(ver, b.spec.Texts[u]) }
+	first := map[string][][]int{}
+	for _, sc := range b.spec.Prov {
+		if _, ok := first[sc.ID]; !ok {
+			first[sc.ID] = sc.Answers
+		}
+	}
 	for _, sc := range b.spec.Prov {
 		if len(sc.Answers) != 1 {
 			return false
 		}
 		a := sc.Answers[0]
-		if len(a) == 0 || (len(a) == 1 && a[0] == -1) {
+		if len(a) == 1 && a[0] == -1 {
 			continue
 		}
-		if len(a) != 1 || c14IDOf(gmsl.RoomVersion(b.spec.Ver), b.spec.Texts[a[0]]) != sc.ID {
+		matching := 0
+		for _, u := range a {
+			if idOf(u) == "" {
+				continue // does not parse: never returned
+			}
+			if idOf(u) == sc.ID {
+				matching++
+				continue
+			}
+			if !lenient {
+				return false
+			}
+			own := first[idOf(u)]
+			if len(own) != 1 {
+				return false
+			}
+			n, same := 0, false
+			for _, v := range own[0] {
+				if v >= 0 && idOf(v) == idOf(u) {
+					n++
+					same = same || v == u
+				}
+			}
+			if n != 1 || !same {
+				return false
+			}
+			for v := range b.spec.Texts {
+				if v != u && idOf(v) == idOf(u) {
+					return false
+				}
+			}
+		}
+		if matching > 1 {
 			return false
 		}
 	}
@@ -608,8 +683,12 @@ func (g *c14Gen) run(b *c14Builder, desc string) []byte {
 	g.c.Count("ver:" + b.spec.Ver)
 	prop := ""
 	switch b.spec.Op {
-	case "csr", "sj", "chain", "load", "bf":
-		if b.stationary() {
+	case "csr", "sj":
+		if b.stationary(true) {
+			prop = "C14.prop." + b.spec.Op
+		}
+	case "chain", "load", "bf":
+		if b.stationary(false) {
 			prop = "C14.prop." + b.spec.Op
 		}
 	case "vras":
@@ -718,7 +797,7 @@ func c14Ancestors(e *c14Ev) []*c14Ev {
 	return out
 }
 
-var c14ChainModes = []string{"nothing", "error", "diff_once", "err_then_orig", "nonstate", "bad", "diff_then_nothing"}
+var c14ChainModes = []string{"nothing", "error", "diff_once", "err_then_orig", "nonstate", "bad", "diff_then_nothing", "diff_forever"}
 
 func (h *c14History) allEvents() []*c14Ev {
 	return append(append([]*c14Ev{}, h.room.evs...), h.joinOK, h.joinOld)
@@ -799,7 +878,7 @@ func (g *c14Gen) genChain(h *c14History) {
 }
 
 var c14IDsModes = []string{"exact", "minus", "plus", "empty", "err", "superset", "minuslast"}
-var c14StateModes = []string{"proper", "err", "minus", "nil", "swap", "bad", "other", "nonstate", "empty", "badsigval"}
+var c14StateModes = []string{"proper", "err", "minus", "nil", "strictpl", "bad", "other", "nonstate", "empty", "badsigval", "dupstate", "nonstatepl"}
 
 // sp adds the state provider's answers for the event `text` (a variant of e).
 func (b *c14Builder) sp(h *c14History, text string, e *c14Ev, idsMode, stMode string) {
@@ -834,41 +913,48 @@ func (b *c14Builder) sp(h *c14History, text string, e *c14Ev, idsMode, stMode st
 	case "err":
 		s.IDsErr = true
 	case "superset":
-		for _, x := range h.state {
+		for _, x := range e.before {
 			s.IDs = append(s.IDs, x.id)
 		}
 		s.IDs = append(s.IDs, authIDs...)
 	}
-	for i, a := range e.auth {
-		key, val := a.id, b.t(a.text)
+	// the state before the event: the room's real state at that point (one event per tuple),
+	// then disturbed
+	cited := func(x *c14Ev) int {
+		for i, a := range e.auth {
+			if a == x {
+				return i
+			}
+		}
+		return -1
+	}
+	for _, x := range e.before {
+		key, val := x.id, b.t(x.text)
+		ci := cited(x)
 		switch stMode {
 		case "minus":
-			if i == 0 {
+			if ci == 0 {
 				continue
 			}
 		case "nil":
-			if i == 0 {
+			if ci == 0 {
 				val = -1
 			}
-		case "swap":
-			if i == 0 && len(e.auth) > 1 {
-				val = b.t(e.auth[1].text)
-			}
 		case "bad":
-			if i == len(e.auth)-1 {
-				val = b.t(h.variant(a, "disallowed"))
+			if ci == len(e.auth)-1 {
+				val = b.t(h.variant(x, "disallowed"))
 			}
 		case "badsigval":
-			if i == len(e.auth)-1 {
-				val = b.t(h.variant(a, "badsig"))
+			if ci == len(e.auth)-1 {
+				val = b.t(h.variant(x, "badsig"))
 			}
-		case "other":
-			if i == 0 {
-				val = b.t(h.altOther.text)
-			}
-		case "nonstate":
-			if i == len(e.auth)-1 {
-				val = b.t(h.variant(a, "nonstate"))
+		case "nonstatepl", "strictpl":
+			if strings.HasPrefix(x.tuple, "m.room.power_levels\x00") {
+				if stMode == "strictpl" {
+					key, val = h.altPL.id, b.t(h.altPL.text)
+				} else {
+					val = b.t(h.variant(x, "nonstate"))
+				}
 			}
 		}
 		s.Keys, s.Vals = append(s.Keys, key), append(s.Vals, val)
@@ -878,17 +964,13 @@ func (b *c14Builder) sp(h *c14History, text string, e *c14Ev, idsMode, stMode st
 		s.StateErr = true
 	case "empty":
 		s.Keys, s.Vals = []string{}, []int{}
-	case "proper":
-		// unrelated state as well
-		for _, x := range h.state {
-			dup := false
-			for _, k := range s.Keys {
-				dup = dup || k == x.id
-			}
-			if !dup {
-				s.Keys, s.Vals = append(s.Keys, x.id), append(s.Vals, b.t(x.text))
-			}
-		}
+	case "other": // an event of another room among the state
+		s.Keys, s.Vals = append(s.Keys, h.altOther.id), append(s.Vals, b.t(h.altOther.text))
+	case "nonstate": // a message among the state: skipped
+		m := h.msgsOrAny()
+		s.Keys, s.Vals = append(s.Keys, m.id), append(s.Vals, b.t(h.variant(m, "nonstate")))
+	case "dupstate": // two power-levels events: not a state
+		s.Keys, s.Vals = append(s.Keys, h.altPL.id), append(s.Vals, b.t(h.altPL.text))
 	}
 	b.spec.SP = append(b.spec.SP, s)
 }
@@ -898,7 +980,7 @@ func (g *c14Gen) genVras(h *c14History) {
 	c, ver := g.c, string(h.room.ver)
 	k := 0
 	for _, e := range h.allEvents() {
-		for _, kind := range []string{"", "disallowed", "wrongroom"} {
+		for _, kind := range []string{"", "disallowed", "wrongroom", "nopl", "dupauth_last"} {
 			t := e.text
 			if kind != "" {
 				t = h.variant(e, kind)
@@ -928,7 +1010,7 @@ func (g *c14Gen) genVras(h *c14History) {
 	g.run(b, "vras no script")
 }
 
-var c14LoadFaults = []string{"", "", "", "badsig", "disallowed", "malformed", "oversize_p", "oversize_np", "wrongroom", "malformed2", "nonstate", "badsig_disallowed", "badsig_wrongroom"}
+var c14LoadFaults = []string{"", "", "", "badsig", "disallowed", "malformed", "oversize_p", "oversize_np", "wrongroom", "malformed2", "nonstate", "badsig_disallowed", "badsig_wrongroom", "nopl", "dupauth_last", "dupauth_first", "otherroom"}
 
 // pdus picks raw inputs for LoadAndVerify / a backfill transaction: events of the history in
 // random order, some of them faulty, some twice; provider answers for what they need.
@@ -1058,6 +1140,8 @@ func (g *c14Gen) sameIDCases(h *c14History) {
 						continue
 					}
 					b := newC14Builder("bf", ver)
+		b.spec.Room = h.room.roomID
+					b.spec.Room = h.room.roomID
 					goodT, badT := x.text, x.text
 					if bad != "prov_err_once" {
 						badT = h.variant(x, bad)
@@ -1098,6 +1182,7 @@ func (g *c14Gen) genBackfill(h *c14History) {
 	// the same events from several servers (honest providers): every event is returned once
 	for _, limit := range []int{100, len(h.room.evs), len(h.room.evs) + 1, 3} {
 		b := newC14Builder("bf", ver)
+		b.spec.Room = h.room.roomID
 		b.spec.Servers = []string{"s0", "s1", "s2"}
 		var all, some []int
 		for i, e := range h.room.evs {
@@ -1114,6 +1199,7 @@ func (g *c14Gen) genBackfill(h *c14History) {
 	}
 	for i := 0; i < c.Scale(60, 600); i++ {
 		b := newC14Builder("bf", ver)
+		b.spec.Room = h.room.roomID
 		ns := c.Rng.Intn(4)
 		for s := 0; s < ns; s++ {
 			name := fmt.Sprint("s", s)
